@@ -500,6 +500,7 @@ func c20Probe(limits bool) func(w *mintops.W) {
 		x.expectErr("unknown-keyset-12001(GET keys/{id})", x.call("GET", "/v1/keys/00ffffffffffffff", "\x00nobody"), 12001)
 		// path variables that are no keyset ids but words a response cache could use as keys of other entries (GET /v1/keys
 		// and GET /v1/info have been answered just before)
+		x.call("GET", "/v1/info", "\x00nobody")
 		for _, word := range []string{"active_keyset_key", "active_keyset", "keysets_key", "keysets", "keys", "mint_info_key", "info"} {
 			x.expectErr("unknown-keyset-12001(GET keys/"+word+")", x.call("GET", "/v1/keys/"+word, "\x00nobody"), 12001)
 		}
@@ -593,6 +594,25 @@ func c20Probe(limits bool) func(w *mintops.W) {
 		q2, h2 := x.mintQuote(8, fmt.Sprintf(`,"pubkey":%q`, pub))
 		if q2 == "" {
 			return
+		}
+		// the same key in other spellings the mint accepts (upper-case hex, uncompressed point): whatever is accepted is
+		// answered as the 33-byte compressed point in lower-case hex, by the POST and by the GET of the quote alike
+		for _, sp := range [][2]string{{"upper-case", strings.ToUpper(pub)}, {"uncompressed", hex.EncodeToString(key.PubKey().SerializeUncompressed())}} {
+			r := x.call("POST", "/v1/mint/quote/bolt11", fmt.Sprintf(`{"amount":8,"unit":"sat","pubkey":%q}`, sp[1]))
+			if r.code != 200 || r.obj == nil {
+				continue // refusing another spelling is fine
+			}
+			if got, _ := r.obj["pubkey"].(string); got != pub {
+				x.viol("shape/mintquote/pubkey-not-canonical/"+sp[0], "POST /v1/mint/quote/bolt11 with the key spelled %s answers pubkey %q, not the compressed lower-case point %q", sp[0], got, pub)
+			}
+			if id, _ := r.obj["quote"].(string); id != "" {
+				g := x.call("GET", "/v1/mint/quote/bolt11/"+id, "\x00nobody")
+				if g.code == 200 && g.obj != nil {
+					if got, _ := g.obj["pubkey"].(string); got != pub {
+						x.viol("shape/mintquote-state/pubkey-not-canonical/"+sp[0], "GET of a quote created with the key spelled %s answers pubkey %q", sp[0], got)
+					}
+				}
+			}
 		}
 		w.LN.Settle(h2)
 		x.expectErr("already-signed-10002(mint)", x.call("POST", "/v1/mint/bolt11", fmt.Sprintf(`{"quote":%q,"outputs":%s,"signature":%q}`, q2, outsJSON(outsA), signQ(key, q2, outsA))), 10002)
